@@ -54,8 +54,8 @@ def _unscratch(d):
 
 def gen_op(rng, small=False):
     r = rng.random()
-    if r < 0.04:
-        return dict(t='call', f='sys_solve', args=[rng.choice([2, 3]), rng.choice([0, 1]), rng.random() < 0.5], kw={})
+    if r < 0.07:
+        return dict(t='call', f='sys_solve', args=[rng.choice([2, 3]), rng.choice([0, 1]), rng.random() < 0.5], kw=({} if rng.random() < 0.4 else {'method': rng.choice(['direct', 'newton', 'reuse', 'linesearch', 'pseudotime'])}))
     if r < 0.62:
         f = rng.choice(['f_scalar', 'f_scalar', 'f_dict', 'f_nutils', 'f_kw', 'f_kw', 'f_fails', 'f_nested', 'f_silent', 'f_arr', 'f_arr'] + ([] if small else ['f_big']))
         if f == 'f_arr':
